@@ -136,10 +136,10 @@ func (v *vcase) finish() {
 
 // expectation per DESIGN 3.7
 type vexp struct {
-	vals     []interface{}
-	reject   bool   // a command-line value does not convert: usage error
-	src      string // cli | env | default
-	anyValid bool   // some listed variable is non-empty and valid
+	vals        []interface{}
+	reject      bool   // a command-line value does not convert: usage error
+	src         string // cli | env | default
+	anyValid    bool   // some listed variable is non-empty and valid
 	anyNonEmpty bool
 }
 
@@ -500,12 +500,12 @@ func judgeValue(c *core.Ctx, v *vcase, e vexp, o vobs, what string) bool {
 	}
 	if what != "setbyuser" && !veqList(o.got, e.vals) {
 		sig := map[string]string{
-			"type":     v.Kind,
-			"cli":      map[bool]string{true: "none", false: "some"}[len(v.Cli) == 0],
-			"env_valid": map[bool]string{true: "some", false: "none"}[e.anyValid],
+			"type":         v.Kind,
+			"cli":          map[bool]string{true: "none", false: "some"}[len(v.Cli) == 0],
+			"env_valid":    map[bool]string{true: "some", false: "none"}[e.anyValid],
 			"env_nonempty": map[bool]string{true: "some", false: "none"}[e.anyNonEmpty],
-			"default":  map[bool]string{true: "nonempty", false: "empty"}[len(v.def) > 0],
-			"observed": map[bool]string{true: "empty", false: "nonempty"}[len(o.got) == 0],
+			"default":      map[bool]string{true: "nonempty", false: "empty"}[len(v.def) > 0],
+			"observed":     map[bool]string{true: "empty", false: "nonempty"}[len(o.got) == 0],
 		}
 		c.Violation(fmt.Sprintf("value from %s: expected %s, observed %s", e.src, vstr(e.vals), vstr(o.got)), nil, sig)
 		return false
